@@ -32,6 +32,13 @@ def scripts():
     out["padded-empty-end"] = (pre + [frame(HEADERS, 0x4, 1, b), frame(DATA, 0x8, 1, b"\x02" + b"ab" + b"\x00\x00"), frame(DATA, 0x1, 1, b"")], 200, HDRS[1:], b"ab")
     out["interleaved-control"] = (pre + [frame(PING, 0, 0, b"\x00" * 8), frame(HEADERS, 0x4, 1, b), frame(WINDOW_UPDATE, 0, 0, b"\x00\x00\x00\x05"),
                                          frame(DATA, 0, 1, b"ab"), frame(PING, 0x1, 0, b"\x01" * 8), frame(DATA, 0x1, 1, b"c")], 200, HDRS[1:], b"abc")
+    # the server follows the complete response with a graceful GOAWAY naming this stream (and other control frames): whether
+    # the GOAWAY shares a read with the final frame or not, the response is complete and is delivered
+    goaway = frame(7, 0, 0, (1).to_bytes(4, "big") + (0).to_bytes(4, "big"))
+    out["goaway-after"] = (pre + [frame(HEADERS, 0x4, 1, b), frame(DATA, 0x1, 1, b"abc"), goaway], 200, HDRS[1:], b"abc")
+    out["goaway-after-2data"] = (pre + [frame(HEADERS, 0x4, 1, b), frame(DATA, 0, 1, b"ab"), frame(DATA, 0x1, 1, b"c"), frame(PING, 0, 0, b"\x02" * 8), goaway],
+                                 200, HDRS[1:], b"abc")
+    out["goaway-after-end-on-headers"] = (pre + [frame(HEADERS, 0x5, 1, b204), goaway], 204, [(b"x-b", b"")], b"")
     return out
 
 
@@ -136,7 +143,7 @@ def specs(tier):
     for name in scripts():
         for variant in ("sync", "async"):
             for consume in ("request", "stream"):
-                if tier == "quick" and (variant, consume) in (("sync", "stream"), ("async", "request")) and name not in ("simple", "trailers"):
+                if tier == "quick" and (variant, consume) in (("sync", "stream"), ("async", "request")) and name not in ("simple", "trailers", "goaway-after"):
                     continue
                 out.append(make_spec(MOD, "Seg2Harness", script=name, variant=variant, consume=consume))
     return out
